@@ -328,7 +328,9 @@ func handleHotRestartAck(s *Session, hdr header, buf []byte) (int, bool, error) 
 	s.listener.mu.Lock()
 	defer s.listener.mu.Unlock()
 
-	if epochID == s.listener.epoch {
+	// only an ack the listener is waiting for counts: a late ack (after the hand-over timed out and was reset)
+	// or a repeated one would drive hotRestartAckCount below zero and make the next hot restart time out.
+	if epochID == s.listener.epoch && s.listener.state == hotRestartState && s.state == hotRestartState {
 		s.listener.hotRestartAckCount--
 		s.state = hotRestartDoneState
 	}
